@@ -42,21 +42,20 @@ Theorem C18_run_cases : forall sigma io i,
 Proof. exact run_cases. Qed.
 Print Assumptions C18_run_cases.
 
-(* Classification: on every input whose embedding relation is well founded and
-   whose function declarations are safe for the mapper's syntactic inspections
-   (named parameters and receivers, bodies, accessor arities) and whose files all
-   have a package clause, a run ends in a
-   deliberate exit - never a Go panic, never an unbounded recursion - for every
-   command line, directory state, map order and fault oracle... *)
+(* Classification: on every input whose embedding relation is well founded (for
+   the package and for every destination package) a run ends in a deliberate
+   exit - never a Go panic, never an unbounded recursion - for every command
+   line, directory state, map order and fault oracle.  The only guard left is
+   the one of the two open non-termination findings K_ctor_self_embed and
+   K_map_self_embed... *)
 Theorem C18_always_a_deliberate_exit : forall sigma io i,
   input_wf i -> is_exit (fst (run sigma io i)).
 Proof. exact run_is_exit. Qed.
 Print Assumptions C18_always_a_deliberate_exit.
 
 (* The same with a decidable guard: "declared before use" (every embedded field
-   and every `type A B` refers to an earlier type spec or to an undeclared name),
-   safe function declarations, package clauses - for the package and for every
-   destination package.  The correspondence check evaluates input_ok on every
+   and every `type A B` refers to an earlier type spec or to an undeclared name)
+   for the package and for every destination package.  The correspondence check evaluates input_ok on every
    sampled case and reports how many lie inside this domain. *)
 Theorem C18_always_a_deliberate_exit_decidable : forall sigma io i,
   input_ok i = true -> is_exit (fst (run sigma io i)).
@@ -101,23 +100,16 @@ Theorem C18_refuted_K_ctor_self_embed :
 Proof. exact (conj self_embed_diverges (conj self_embed_run self_embed_not_wf)). Qed.
 Print Assumptions C18_refuted_K_ctor_self_embed.
 
-Theorem C18_refuted_K_map_unnamed_names :
-  fst (run id_order no_fault w_map_unnamed) = Panic PManualParamName /\ safe_funcs (i_files w_map_unnamed) = false.
-Proof. exact (conj map_unnamed_panics map_unnamed_unsafe). Qed.
-Print Assumptions C18_refuted_K_map_unnamed_names.
-
-Theorem C18_refuted_K_map_nil_body : fst (run id_order no_fault w_map_nil_body) = Panic PManualNilBody.
-Proof. exact map_nil_body_panics. Qed.
-Print Assumptions C18_refuted_K_map_nil_body.
-
-Theorem C18_refuted_K_map_accessor_arity : fst (run id_order no_fault w_map_setter) = Panic PSetterNoParam.
-Proof. exact map_setter_panics. Qed.
-Print Assumptions C18_refuted_K_map_accessor_arity.
-
-Theorem C18_refuted_K_testfile_no_package_clause :
-  fst (run id_order no_fault w_no_clause) = Panic PTestFileNoPos /\ has_pkg_clauses (i_files w_no_clause) = false.
-Proof. exact no_clause_panics. Qed.
-Print Assumptions C18_refuted_K_testfile_no_package_clause.
+(* The panics K_map_unnamed_names, K_map_nil_body, K_map_accessor_arity and
+   K_testfile_no_package_clause were repaired in /repo (b905249, 1e0ce7d, 1762519, 29dcb84): the
+   model has no panic site left (psite is empty) and their former witnesses succeed. *)
+Theorem C18_repaired_witnesses_succeed :
+  fst (run id_order no_fault w_map_unnamed) = Exit DSuccess /\
+  fst (run id_order no_fault w_map_nil_body) = Exit DSuccess /\
+  fst (run id_order no_fault w_map_setter) = Exit DSuccess /\
+  fst (run id_order no_fault w_no_clause) = Exit DSuccess.
+Proof. exact repaired_witnesses_succeed. Qed.
+Print Assumptions C18_repaired_witnesses_succeed.
 
 (* exit status 1 AFTER the output was written *)
 Theorem C18_refuted_K_clean_unreadable_after_write :
